@@ -232,6 +232,28 @@ func evalC07(c *engine.Ctx, cs c07Case) {
 		return
 	}
 	want := ref.DeriveIKE(p, ig, el, nonce, secret, si, sr)
+	if cs.Via == "raw" && (cs.NonceLen+cs.SecLen+cs.SPI)%3 == 0 {
+		// the same object is keyed again with other inputs (retry after COOKIE / INVALID_KE_PAYLOAD): keys and
+		// ready-to-use objects must all follow the second derivation
+		nonce2, secret2 := univ.Pat(cs.NonceLen+3, 900+cs.NonceLen), univ.Pat(cs.SecLen+1, 901+cs.SecLen)
+		var err2 error
+		if pi := engine.Catch(func() { err2 = sa.GenerateKeyForIKESA(nonce2, secret2, sr+5, si+7) }); pi != nil || err2 != nil {
+			c.Violate("rederive-error", fmt.Sprintf("second GenerateKeyForIKESA on the same object: %v %v", pi, err2), cs)
+			return
+		}
+		want2 := ref.DeriveIKE(p, ig, el, nonce2, secret2, sr+5, si+7)
+		if sig, what := checkSA(sa, want2, p, ig); sig != "" {
+			c.Violate("rederive/"+sig, fmt.Sprintf("after a second derivation on the same IKESAKey object: %s", what), cs)
+			return
+		}
+		c.Count("rederivations_checked", 1)
+		// continue with a fresh object for the remaining clauses
+		sa = infoSA(cs)
+		if err := sa.GenerateKeyForIKESA(nonce, secret, si, sr); err != nil {
+			c.Violate("derive-error/raw", errStr(err), cs)
+			return
+		}
+	}
 	if sig, what := checkSA(sa, want, p, ig); sig != "" {
 		c.Violate(sig+"/"+cs.Via, fmt.Sprintf("prf=%s integ=%s/%d aes=%d dh=%d nonce=%d secret=%d spi=%d: %s", p.Digest, ig.Digest, ig.OutLen*8, el*8, dhIDs[cs.DH], cs.NonceLen, len(secret), cs.SPI, what), cs)
 		return
